@@ -205,6 +205,11 @@ func buildGraph(rc resolve.Client, root resolve.VersionKey, s *state) (*resolve.
 					// root for some reason. Skip it.
 					continue
 				}
+				if g.Nodes[f].Version != parent {
+					// The requirement was recorded for a version of the
+					// parent that is not the selected one.
+					continue
+				}
 				from = f
 			}
 			rvk := req.VersionKey
